@@ -77,7 +77,8 @@ def _board(rng):
 # nicknames: ordinary ones, padded ones, and ones whose first characters are the letters of the QT query name or the separator
 # (a reply is the name, one comma, then the payload verbatim: 'QT,Tom', 'QT,,odd', 'QT,QT')
 NICKS = ["Bot", " Axi ", "Plotter 7", "x" * 16, "a b", "Tom", "Quill", "QT", "TQ", "TTT", "Q", "T", ",odd", ",,x", "T,Q", "QT,QT", "qt", " Tim\t", "Q Q",
-         "East  Lab", " Plotter   No 2 ", "Rack\t4", "a \t b"]          # interior whitespace is part of the name: only the ends are trimmed
+         "East  Lab", " Plotter   No 2 ", "Rack\t4", "a \t b",
+         "Terry", "Cherry pie", "ERROL", "err", "Err", "Ferry:1", "berr: y", "OK", "!8"]      # texts that resemble the board's status words without being them (an error line carries 'Err:')          # interior whitespace is part of the name: only the ends are trimmed
 def _nick(rng):
     if rng.random() < 0.6: return rng.choice(NICKS)
     return rng.choice("QT,QT,abzAZ09_-. ") + "".join(rng.choice("QT,abcXYZ 019_") for _ in range(rng.randint(0, 8)))
